@@ -39,7 +39,13 @@ BOUND = ('routes /r and /r/:x: all 32x32 assignments of subsets of {GET,POST,HEA
          'router.add / app.add_route / @app.route / @app.get..; request verbs {GET,HEAD,POST,PUT,get,Head,pOsT,put,ANY,any,'
          'OPTIONS,DELETE,PATCH,""} x matching / non-matching / prefix / extended paths; exhaustive; plus seeded random rule '
          'sets from the shared rule pool with op histories of length <=10 (thorough: 3-route exhaustive 8^3 tables x follow-ups, '
-         'two follow-up ops, 6000 random histories)')
+         'two follow-up ops, 6000 random histories); REWRITTEN VERBS, end to end through Ombott.__call__, oracle applied to the '
+         'rewritten verb/path: (hook) a before_request hook that sets request[REQUEST_METHOD] after 0/1 reads of request.method '
+         '(and one read after), 32 verb pairs (POST->DELETE/delete/put/GET/HEAD/.., GET->POST/HEAD/.., HEAD->GET/POST, '
+         'lower/mixed-case spellings, "" and ANY) x all probe paths; (forward) a handler serves the app again with '
+         'dict(request.environ) (or a fresh environ) whose REQUEST_METHOD and PATH_INFO are rewritten: <=4 arrivals of '
+         '{POST,GET,head,put,DELETE} x all probe paths x 12 target verbs; on /r,/r/:x 32x4 + 32 tables and every second '
+         'follow-up history, on the 8 other rule sets 8x8 tables, plus 120 seeded random rule sets/histories (thorough 3000)')
 NONTRIVIAL_RULE = ('distinct (rules, history, paths); non-trivial = at least one route has a non-empty table and at least one '
                    'probe path selects a route')
 
